@@ -20,13 +20,16 @@ static ctrans TR[MAXOBJ];
 static vh_obj OB[MAXOBJ];
 static int is_par[MAXOBJ], pos[MAXOBJ];
 
+static int ro_guard;           /* --prop C18: parallel-ECB state is PROT_READ while encrypt/decrypt/crypt run */
+static int ro_active = -1;
+
 static int describe_fault(const void *addr, char *buf, size_t n)
 {
     int b; long off; const am_block *bl; int nb;
     if (!am_in_arena(addr, &b, &off)) return 0;
     bl = am_blocks(&nb);
     snprintf(buf, n, "access to allocator-monitor block #%d (size %lu, object %d, %s) at offset %ld", b, (unsigned long)bl[b].size, bl[b].obj,
-             bl[b].live ? "live: beyond its end / guard page" : "FREED and quarantined: use after free", off);
+             bl[b].live ? (ro_active == bl[b].obj ? "live and PROT_READ during a read-only call: the call WROTE to the shared object state" : "live: beyond its end / guard page") : "FREED and quarantined: use after free", off);
     return 1;
 }
 
@@ -35,6 +38,15 @@ static void pre_hook(vh_obj *ob, int is_cleanup, int opi)
     am_mark(ob->id, opi);
     vh_set_cap(ob->cap);
     if (is_cleanup && ob->live) am_nonzero_live(ob->id);
+    if (ro_guard && ob->id >= 0 && ob->id < MAXOBJ && is_par[ob->id] && ob->live && opi >= 0) {
+        int k = PH[ob->id].ops[opi].kind;
+        if ((k == P_ENCRYPT || k == P_DECRYPT) && !(PH[ob->id].ops[opi].flags & F_NULL_OBJ)) { am_protect_obj(ob->id, 1); ro_active = ob->id; VH_COUNT("parallel_calls_with_read_only_object_state", 1); }
+    }
+}
+static void post_hook(vh_obj *ob, int opi)
+{
+    (void)ob; (void)opi;
+    if (ro_active >= 0) { am_protect_obj(ro_active, 0); ro_active = -1; }
 }
 
 static void viol(const char *key, uint64_t idx, const char *detail)
@@ -324,6 +336,8 @@ int main(int argc, char **argv)
     vh_install_fault_handler();
     vh_fault_describe_hook = describe_fault;
     vh_pre_call_hook = pre_hook;
+    vh_post_call_hook = post_hook;
+    ro_guard = !strcmp(prop, "C18");
     noaccess_page = mmap(NULL, 8192, PROT_NONE, MAP_PRIVATE | MAP_ANONYMOUS, -1, 0);
     for (i = 0; i < CIPH_N; ++i) { maxbe[i] = vh_max_backend(&vh_ciphers[i]); if (maxbe[i] < 0) { printf("{\"type\":\"inconclusive\",\"reason\":\"cannot identify back end\"}\n"); return 2; } }
     {   /* positive controls for the monitor itself: a leak, a double free and a dirty free must be seen */
